@@ -33,8 +33,17 @@ import (
 //	           SYN/FIN), fragmentation; the tap omits nothing: exactness
 //	omission   the tap omits 1..2 data segments: prefix + skipped_bytes rule
 //	reportonly reorderings the statement does not promise (SYN/FIN swaps, data
-//	           before SYN, FIN before earlier data, displacement up to 8):
-//	           mismatches are counted in Extra, never violations
+//	           before SYN, FIN before earlier data, displacement up to 8) and
+//	           pcapng sections with a stated length: mismatches are counted
+//	           in Extra as reportonly_<oracle>, never violations
+//
+// Violation classes: oracle is one of connection-count, endpoint-mismatch,
+// stream-mismatch, invented-data, skipped-nonzero, skipped-not-signalled,
+// ipv4-reassembly, section-count, decode-failed, panic. The key is
+// "<feature>/<pcap|pcapng>"; the feature is the most specific property of the
+// history of the direction or datagram concerned (netsim.DirTruth.Feature):
+// frag-eqlen, seqwrap-back, fragorder, seqwrap, plain. Link type(s) and exact
+// file type lead the detail text in brackets.
 func init() { core.Register(&hnet{}) }
 
 type hnet struct{}
@@ -324,7 +333,7 @@ func (*hnet) Run(rc *core.RunCtx) *core.RunResult {
 		res.Violate("HARNESS", "generator", strings.SplitN(w.Err, ":", 2)[0], w.Err)
 		return res
 	}
-	spec := netsim.DrawCaptureSpec(rc.T)
+	spec := netsim.DrawCaptureSpec(rc.T, params)
 	key = spec.Family()
 	flavour = spec.Key()
 	capture := netsim.WriteCapture(w, spec)
@@ -353,6 +362,17 @@ func (*hnet) Run(rc *core.RunCtx) *core.RunResult {
 		res.Extra["two_interfaces"]++
 	}
 	res.Extra["packets"] += len(w.Tap)
+	res.Extra["reassembled_datagrams"] += len(tr.Reasm)
+	for i := range tr.Conns {
+		for s := 0; s < 2; s++ {
+			switch d := &tr.Conns[i].Dirs[s]; {
+			case d.Missing && d.LaterData:
+				res.Extra["hole_with_later_data"]++
+			case d.Missing:
+				res.Extra["hole_without_later_data"]++
+			}
+		}
+	}
 	res.Extra["connections"] += len(w.Conns)
 
 	// the case, for humans
